@@ -27,10 +27,11 @@ type TapImport struct {
 }
 
 // OpImportTapScript imports a full-tree tapscript with 1-2 leaves; nil when
-// nothing was committed.
-func (m *Machine) OpImportTapScript(t *rapid.T) *TapImport {
+// nothing was committed. With allowSecret false only non-secret scripts are
+// imported.
+func (m *Machine) OpImportTapScript(t *rapid.T, allowSecret bool) *TapImport {
 	s := m.drawScope(t)
-	secret := rapid.IntRange(0, 2).Draw(t, "secretTapscript") > 0
+	secret := rapid.IntRange(0, 2).Draw(t, "secretTapscript") > 0 && allowSecret
 	nLeaves := rapid.IntRange(1, 2).Draw(t, "leaves")
 	internal := m.nextWIF(t, true).PrivKey.PubKey()
 	var leaves []txscript.TapLeaf
